@@ -1,2 +1,49 @@
-(* C08 -- theorems being added *)
-From HS Require Import Lib.Base.
+(* C08 -- streaming_body (identity): the client gets exactly the written bytes, once, in order. *)
+From HS Require Import Lib.Base Model.Chunker Proofs.ChunkerP.
+
+(* For any sequence of write, write_all, flush and poll operations and the drop of the writer --
+   any length, any chunk size >= 1, any interleaving of consumer polls -- the concatenation of the
+   byte prefixes that write reported as accepted equals, in order, what has been delivered, then
+   what is queued, then what is still buffered; the state stays well-formed (`Good`). *)
+Theorem c08_accounting : forall ops s, Good s -> Forall benign ops ->
+  let '(sf, rs) := crun s ops in
+  Good sf /\ pending s ++ c_buf s ++ acc_total ops rs = del_total rs ++ pending sf ++ c_buf sf.
+Proof. exact history_accounting. Qed.
+Theorem c08_initial_state_good : forall cap, 0 < cap -> Good (cinit cap).
+Proof. exact good_init. Qed.
+
+(* Once the writer has been dropped, polling delivers every queued chunk in order and then ends cleanly. *)
+Theorem c08_delivery : forall ready s rb, Good s -> c_w s = WGone -> c_st s = SOk ready rb true ->
+  let '(sf, rs) := crun s (repeat (OPoll 0) (S (length ready))) in
+  c_st sf = SFused /\ del_total rs = concat ready /\
+  (exists rs0, rs = rs0 ++ [(RPoll (Some None), [])]).
+Proof. exact drain_finished. Qed.
+
+(* After flush returns Ok every byte accepted so far is in the shared queue (nothing is left in
+   the writer), i.e. available to the consumer without any further producer action. *)
+Theorem c08_flush : forall s, Good s -> Live s ->
+  let '(s', r, wk) := cstep s OFlush in r = RIo true /\ c_buf s' = [] /\ pending s' = pending s ++ c_buf s.
+Proof. exact flush_publishes. Qed.
+
+(* A write of a non-empty buffer to a live body accepts at least one byte (and at most all). *)
+Theorem c08_progress : forall s d, Good s -> Live s -> d <> [] ->
+  exists s' n wk, cstep s (OWrite d) = (s', RWrite (Some n), wk) /\ 1 <= n /\ n <= lenN d.
+Proof. exact write_progress. Qed.
+
+(* Every frame is non-empty. *)
+Theorem c08_frames_nonempty : forall s w s' d wk, CInv s ->
+  cstep s (OPoll w) = (s', RPoll (Some (Some (Some d))), wk) -> d <> [].
+Proof. exact frames_nonempty. Qed.
+
+Example c08_instance :
+  let '(sf, rs) := crun (cinit 4) [OWrite [1;2;3;4;5;6]; OWrite [5;6]; OFlush; ODropWriter; OPoll 1; OPoll 1; OPoll 1] in
+  map fst rs = [RWrite (Some 4); RWrite (Some 2); RIo true; RUnit;
+                RPoll (Some (Some (Some [1;2;3;4]))); RPoll (Some (Some (Some [5;6]))); RPoll (Some None)].
+Proof. vm_compute. reflexivity. Qed.
+
+Print Assumptions c08_accounting.
+Print Assumptions c08_initial_state_good.
+Print Assumptions c08_delivery.
+Print Assumptions c08_flush.
+Print Assumptions c08_progress.
+Print Assumptions c08_frames_nonempty.
